@@ -258,10 +258,12 @@ func refListC28(ps []refPatC28, abs bool, comps [][]rune) bool {
 }
 
 // ---------------------------------------------------------------------------
-// model of one known defect shape (used only to classify a disagreement, never as the
-// oracle): restic expands the first "**" to at most len(path)-len(pattern)+1
-// components where len(pattern) still counts every later "**" as one component, so a
-// match that needs the first "**" to be longer while a later "**" is empty is missed.
+// model of a repaired defect (fix "patterns with several '**' match when a later '**'
+// expands to nothing"); used only to label the cases that have exactly that shape in
+// the histogram, never as the oracle: restic used to expand the first "**" to at most
+// len(path)-len(pattern)+1 components where len(pattern) still counted every later "**"
+// as one component, so a match that needs the first "**" to be longer while a later
+// "**" is empty was missed.
 // ---------------------------------------------------------------------------
 
 type bpartC28 struct {
@@ -347,7 +349,20 @@ func boundedMatchC28(p refPatC28, abs bool, comps [][]rune) bool {
 	return boundedModelC28(parts, strs, abs)
 }
 
-const knownKeyC28 = "C28:multiple-doublestar-later-empty-missed"
+// regression probes for that defect (all must match)
+var regressionC28 = [][2]string{
+	{"/home/**/cache/**/tmp", "/home/u/cache/tmp"},
+	{"/home/**/cache/**/tmp", "/home/cache/tmp"},
+	{"/home/**/cache/**/tmp", "/home/u/v/cache/tmp"},
+	{"/**/a/**/b", "/a/b"},
+	{"/**/a/**/b", "/x/a/b"},
+	{"/a/**/b/**", "/a/b"},
+	{"/**/b/**", "/a/a/b"},
+	{"/**/node_modules/**", "/srv/app/node_modules"},
+	{"**/a/**/b", "a/b"},
+	{"**/**/**", "a"},
+	{"a/**/**/**/b", "/a/b"},
+}
 
 // ---------------------------------------------------------------------------
 // generators
@@ -388,7 +403,7 @@ type genPatC28 struct {
 func genPatternC28(t *rapid.T, allowNeg bool, invalidOneIn int) genPatC28 {
 	var g genPatC28
 	n := rapid.IntRange(1, 5).Draw(t, "ncomp")
-	g.invalid = rapid.IntRange(0, invalidOneIn-1).Draw(t, "invalid") == 0
+	g.invalid = rapid.IntRange(0, invalidOneIn-1).Draw(t, "invalid") == invalidOneIn/2
 	badAt := -1
 	if g.invalid {
 		badAt = rapid.IntRange(0, n-1).Draw(t, "badAt")
@@ -614,6 +629,31 @@ func okErrC28(err error) bool {
 func TestVerifC28Match(t *testing.T) {
 	st := verifkit.Begin(t, "C28")
 	alphaSize := verifkit.Scale(5, 6)
+	if verifkit.ReplayFile() != "" && strings.HasSuffix(verifkit.ReplayFile(), ".json") {
+		// replay of a saved regression case
+		var c map[string]string
+		if err := verifkit.LoadReplay(&c); err != nil {
+			t.Fatalf("replay: %v", err)
+		}
+		rp := refParsePatternC28(c["pattern"], false)
+		abs, comps := splitRefPathC28(c["path"])
+		m, err := Match(c["pattern"], c["path"])
+		if want := refMatchC28(rp, abs, comps); err != nil || m != want {
+			t.Fatalf("replay: Match(%q, %q) = %v, %v; documented semantics give %v", c["pattern"], c["path"], m, err, want)
+		}
+		return
+	}
+	for _, c := range regressionC28 {
+		if m, err := Match(c[0], c[1]); err != nil || !m {
+			verifkit.SaveReplay("C28", "regression", map[string]string{"pattern": c[0], "path": c[1]})
+			t.Fatalf("regression: Match(%q, %q) = %v, %v; the documented semantics ('**' matches any number of components, including none) give true", c[0], c[1], m, err)
+		}
+		rp := refParsePatternC28(c[0], false)
+		abs, comps := splitRefPathC28(c[1])
+		if !refMatchC28(rp, abs, comps) || boundedMatchC28(rp, abs, comps) {
+			t.Fatalf("harness: regression case %q on %q is not of the repaired shape", c[0], c[1])
+		}
+	}
 	rapid.Check(t, func(t *rapid.T) {
 		g := genPatternC28(t, false, 10)
 		path, plen := genPathC28(t, g)
@@ -697,14 +737,12 @@ func TestVerifC28Match(t *testing.T) {
 		case err != nil:
 			t.Fatalf("Match(%q, %q): unexpected error %v (reference: %v)", g.str, path, err, want)
 		case got != want:
-			bounded := boundedMatchC28(rp, pabs, pcomps)
-			if want && !got && rp.ndst >= 2 && !bounded && st.Known(knownKeyC28) {
-				classes = append(classes, "match:known-finding")
-				break
-			}
-			t.Fatalf("Match(%q, %q) = %v, documented semantics give %v (defect model: %v)", g.str, path, got, want, bounded)
+			t.Fatalf("Match(%q, %q) = %v, documented semantics give %v", g.str, path, got, want)
 		default:
 			classes = append(classes, fmt.Sprintf("match=%v", got))
+			if want && rp.ndst >= 2 && !boundedMatchC28(rp, pabs, pcomps) {
+				classes = append(classes, "match:repaired-multi**-shape")
+			}
 		}
 		if rp.valid && boundedMatchC28(rp, pabs, pcomps) && !want {
 			t.Fatalf("harness: defect model matches %q on %q but the reference does not", g.str, path)
@@ -801,10 +839,10 @@ func TestVerifC28List(t *testing.T) {
 			t.Fatalf("ParsePatterns(%q) kept %d patterns, want %d", strs, len(pats), n)
 		}
 
-		knownShape := func(abs bool, comps [][]rune) bool {
+		repairedShape := func(abs bool, comps [][]rune) bool {
 			for _, rp := range rps {
 				if rp.ndst >= 2 && refMatchC28(rp, abs, comps) && !boundedMatchC28(rp, abs, comps) {
-					return st.Known(knownKeyC28)
+					return true
 				}
 			}
 			return false
@@ -826,15 +864,14 @@ func TestVerifC28List(t *testing.T) {
 				t.Fatalf("RejectByPattern(%q)(%q) = %v but List = %v", strs, path, rej, got)
 			}
 			if got != want {
-				if !knownShape(pabs, pcomps) {
-					t.Fatalf("List(%q, %q) = %v, documented semantics give %v", strs, path, got, want)
-				}
-				classes = append(classes, "list:known-finding")
-			} else {
-				classes = append(classes, fmt.Sprintf("list=%v", got))
-				if want && anyNeg {
-					classes = append(classes, "list:true-with-negation")
-				}
+				t.Fatalf("List(%q, %q) = %v, documented semantics give %v", strs, path, got, want)
+			}
+			classes = append(classes, fmt.Sprintf("list=%v", got))
+			if want && anyNeg {
+				classes = append(classes, "list:true-with-negation")
+			}
+			if repairedShape(pabs, pcomps) {
+				classes = append(classes, "list:repaired-multi**-shape")
 			}
 			// case-insensitive variant: the answer does not depend on the casing of the path
 			lower := make([]string, len(strs))
@@ -864,7 +901,7 @@ func TestVerifC28List(t *testing.T) {
 			if im != m || ichild != child {
 				t.Fatalf("IncludeByPattern(%q)(%q) = %v,%v but ListWithChild = %v,%v", strs, dir, im, ichild, m, child)
 			}
-			if m != wantDir && !knownShape(dabs, dcomps) {
+			if m != wantDir {
 				t.Fatalf("ListWithChild(%q, %q) matched = %v, documented semantics give %v", strs, dir, m, wantDir)
 			}
 			alpha := alphabetC28(gs, alphaSize)
